@@ -29,11 +29,59 @@ def cases(tier):
             del members[0]['rng_replay_of']
             cfg = {'scenario': 'batch', 'n': n, 'x': x, 'members': members, 'verify_each': True, 'actions': ['VerifyOnly', 'RecoverAndVerify', 'RecoverOnly']}
             out.append({'cfg': cfg, 'name': 'n%d x%d cap%d proof %s' % (n, x, cap, 'honest' if t is None else 'altered(%s)' % t['elem']), 'honest': t is None})
+    # a mask with zero entries: accepted and recovered like any other, whatever the seed and the mode
+    for (n, x, cap, zc) in [(8, 2, 1, [1]), (4, 1, 2, [0]), (2, 6, 1, [0, 3, 5])]:
+        mk = lambda ts: dict({'m': 1, 'cap': cap, 'seeded': True, 'name_idx': 0, 'rng_replay_of': None, 'zero_blinding_components': zc}, **({'tamper_statement': ts} if ts else {}))
+        members = [mk(None), mk({'op': 'seed_other'}), mk({'op': 'seed_none'})]
+        members[1]['rng_replay_of'] = 0
+        members[2]['rng_replay_of'] = 0
+        del members[0]['rng_replay_of']
+        cfg = {'scenario': 'batch', 'n': n, 'x': x, 'members': members, 'verify_each': True, 'actions': ['VerifyOnly', 'RecoverAndVerify', 'RecoverOnly']}
+        out.append({'cfg': cfg, 'name': 'n%d x%d cap%d proof honest, blinding components %s zero' % (n, x, cap, zc), 'honest': True})
+    # batches mixing members with and without a seed, in every order: the two recovering modes return the same masks, result by result
+    import itertools
+    kinds = [{'m': 1, 'cap': 2, 'seeded': False}, {'m': 1, 'cap': 2, 'seeded': True}, {'m': 2, 'cap': 2, 'seeded': False}]
+    for combo in ([0, 1], [0, 1, 1], [2, 1, 0]):
+        for perm in sorted(set(itertools.permutations(combo))):
+            members = [dict(kinds[c], label='member %d' % i) for i, c in enumerate(perm)]
+            cfg = {'scenario': 'batch', 'n': 4, 'x': 2, 'members': members, 'actions': ['VerifyOnly', 'RecoverAndVerify', 'RecoverOnly']}
+            out.append({'cfg': cfg, 'name': 'batch seeded=%s' % [kinds[c]['seeded'] for c in perm], 'batch': True})
     return out
+
+
+def analyse_batch(ctx, case, run, S):
+    cfg = case['cfg']
+    if not ctx.expect(all(p['result'] == 'ok' for p in run.out['prove']) and run.out.get('verify'), 'C10:prove', 'honest prover failed (%s)' % case['name'], cfg, 'honest_rejected'):
+        return
+    by = {v['action']: v for v in run.out['verify']}
+    for act, v in sorted(by.items()):
+        ctx.expect(v['result'] == 'ok', 'C10:verdict:batch:' + act, '%s: %s returned %s for an all-valid batch' % (case['name'], act, v['result']), cfg, 'verdict_depends_on_seed_or_mode')
+    a, b = by.get('RecoverAndVerify'), by.get('RecoverOnly')
+    if not (a and b and a['result'] == 'ok' and b['result'] == 'ok'):
+        return
+    ma, mb = a['masks'], b['masks']
+    shape = len(ma) == len(mb) and all((x is None) == (y is None) and (x is None or len(x) == len(y)) for x, y in zip(ma, mb))
+    if not ctx.expect(shape, 'C10:recover-only-differs', '%s: RecoverOnly returns %s, RecoverAndVerify %s (presence of masks per member)' % (
+            case['name'], [m_ is not None for m_ in mb], [m_ is not None for m_ in ma]), cfg, 'recover_only_differs'):
+        return
+    for i, (x, y) in enumerate(zip(ma, mb)):
+        for kk, (hx, hy) in enumerate(zip(x or [], y or [])):
+            if hx == hy:
+                continue
+            if not ctx.expect(run.core['shadows'][hx] == run.core['shadows'][hy], 'C10:recover-only-differs',
+                              '%s: RecoverOnly and RecoverAndVerify masks differ (member %d, component %d)' % (case['name'], i, kk), cfg, 'recover_only_differs'):
+                continue
+            num = (run.norm.frac(hx) - run.norm.frac(hy)).num
+            S.sync_terms(run.T)
+            if run.T.cval(num) != 0:
+                ctx.solve(S, 'valid-eq', '%s: RecoverOnly mask == RecoverAndVerify mask (member %d, component %d)' % (case['name'], i, kk), run.side_conditions() + ['(not (= t%d 0.0))' % num],
+                          cfg=cfg, key='C10:recover-only-differs', pred='recover_only_differs')
 
 
 def analyse(ctx, case, run, S):
     cfg = case['cfg']
+    if case.get('batch'):
+        return analyse_batch(ctx, case, run, S)
     if not ctx.expect(all(p['result'] == 'ok' for p in run.out['prove']) and run.out.get('verify_each'), 'C10:prove', 'honest prover failed (%s)' % case['name'], cfg, 'honest_rejected'):
         return
     # the three members must carry the very same proof (same variables, replayed RNG stream)
